@@ -83,7 +83,9 @@ var (
 )
 
 // patternWithSyndrome finds an error pattern of weight 1..4 whose syndrome under the real polymod is target.
-func patternWithSyndrome(target uint32, o *fw.Obs) (pat, bool) { return patternWithSyndromeWithin(target, 88, o) }
+func patternWithSyndrome(target uint32, o *fw.Obs) (pat, bool) {
+	return patternWithSyndromeWithin(target, 88, o)
+}
 
 // patternWithSyndromeWithin: all positions at distance < maxDist from the end.
 func patternWithSyndromeWithin(target uint32, maxDist int, o *fw.Obs) (pat, bool) {
@@ -142,7 +144,6 @@ func patternWithSyndromeWithin(target uint32, maxDist int, o *fw.Obs) (pat, bool
 	}
 	return pat{}, false
 }
-
 
 // ---------------------------------------------------------------------------
 // history: the same scan with a rejected call in front of every probe
